@@ -151,7 +151,7 @@ Lemma byte_loop (C : state -> bool) (B Q : state -> state * ctl) :
   (forall k j hb evs, C (st k j hb evs) = (k <? List.length p)%nat) ->
   (forall k j hb evs, Q (st k j hb evs) = (st (S k) j hb evs, Next)) ->
   (forall k j hb evs, (k < List.length p)%nat ->
-     exists k1 j1 hb1 out, B (st k j hb evs) = (st k1 j1 hb1 (evs ++ out), Next) /\ (k <= k1)%nat /\
+     exists k1 j1 hb1 out cN, B (st k j hb evs) = (st k1 j1 hb1 (evs ++ out), cN) /\ goes_on cN /\ (k <= k1)%nat /\
        rev (skipn k p) (skipn j vals) = (written out ++ rev (skipn (S k1) p) (skipn j1 vals))%list) ->
   forall n k j hb evs, (List.length p - k < n)%nat ->
   exists k' j' hb' evs', while_loop C B Q n (st k j hb evs) = (st k' j' hb' evs', Next) /\
@@ -160,8 +160,10 @@ Proof.
   intros HC HQ HB n. induction n as [|n IH]; intros k j hb evs Hn; [lia|].
   cbn [while_loop]. rewrite HC.
   destruct (Nat.ltb_spec k (List.length p)) as [Hlt|Hge].
-  - destruct (HB k j hb evs) as (k1 & j1 & hb1 & out & HBe & Hle & Hm); [lia|].
-    rewrite HBe, HQ.
+  - destruct (HB k j hb evs) as (k1 & j1 & hb1 & out & cN & HBe & Hgo & Hle & Hm); [lia|].
+    rewrite HBe. assert (Hsame : forall (X : state * ctl), match cN with Brk => (st k1 j1 hb1 (evs ++ out)%list, Next) | Ret w => (st k1 j1 hb1 (evs ++ out)%list, Ret w) | _ => X end = X)
+      by (intro X; destruct Hgo as [-> | ->]; reflexivity).
+    rewrite Hsame, HQ.
     destruct (IH (S k1) j1 hb1 (evs ++ out)%list) as (k' & j' & hb' & evs' & Hr & Hw); [lia|].
     exists k', j', hb', evs'. split; [exact Hr|].
     rewrite Hw, written_app, Hm, app_assoc. reflexivity.
@@ -246,7 +248,7 @@ Ltac use_facts := repeat match goal with
 Ltac crunch := repeat (progress (step; use_facts)).
 
 Lemma body_spec k j hb evs : (k < List.length p)%nat ->
-  exists k1 j1 hb1 out, exec rsym rpred [] byte_body (st k j hb evs) = (st k1 j1 hb1 (evs ++ out), Next) /\ (k <= k1)%nat /\
+  exists k1 j1 hb1 out cN, exec rsym rpred [] byte_body (st k j hb evs) = (st k1 j1 hb1 (evs ++ out), cN) /\ goes_on cN /\ (k <= k1)%nat /\
     rev (skipn k p) (skipn j vals) = (written out ++ rev (skipn (S k1) p) (skipn j1 vals))%list.
 Proof.
   intro Hk. pose proof (skipn_nth zero p k Hk) as Hs.
@@ -263,10 +265,10 @@ Proof.
     all: crunch.
     (* an escaped colon: the backslash is skipped, the colon written *)
     all: try (match goal with Hn' : nth _ _ _ = colon |- _ => idtac end;
-              exists (S k), j, (b2v true); eexists; (split; [reflexivity|]); (split; [lia|]);
+              exists (S k), j, (b2v true); do 2 eexists; (split; [reflexivity|]); (split; [first [left; reflexivity | right; reflexivity]|]); (split; [lia|]);
               rewrite Hs, (skipn_nth zero p (S k)) by (apply Nat.ltb_lt; exact El); rewrite Hc, Hn, rev_esc; fin; fail).
     (* a backslash before something else, or at the end: written as it is *)
-    all: exists k, j, (b2v true); eexists; (split; [reflexivity|]); (split; [lia|]).
+    all: exists k, j, (b2v true); do 2 eexists; (split; [reflexivity|]); (split; [first [left; reflexivity | right; reflexivity]|]); (split; [lia|]).
     all: try (match goal with Ec' : Ascii.eqb (nth (S _) _ _) colon = false |- _ => idtac end;
               rewrite Hs, (skipn_nth zero p (S k)) by (apply Nat.ltb_lt; exact El); rewrite Hc, (rev_bs_other _ _ _ Ec); fin; fail).
     all: apply Nat.ltb_ge in El; rewrite Hs, (skipn_all2 p (n := S k)) by lia; rewrite Hc, rev_bs_end, rev_nil; fin.
@@ -292,14 +294,14 @@ Proof.
          [ apply Nat.ltb_lt in Ek'; rewrite (skipn_nth zero p k' Ek') in Hsk |- *;
            destruct (drop_seg_shape (skipn (S k) p)) as [Hd | [r' Hd]]; rewrite Hd in Hsk; [discriminate|];
            injection Hsk as Hsl Hr'; rewrite Hsl;
-           exists k', (S j), (b2v false); eexists; (split; [rewrite <- app_assoc; reflexivity|]); (split; [lia|]);
+           exists k', (S j), (b2v false); do 2 eexists; (split; [rewrite <- app_assoc; reflexivity|]); (split; [first [left; reflexivity | right; reflexivity]|]); (split; [lia|]);
            rewrite rev_slash; fin; rewrite <- app_assoc; reflexivity
          | apply Nat.ltb_ge in Ek'; rewrite (skipn_all2 p (n := k')), rev_nil by lia;
-           exists k', (S j), (b2v false); eexists; (split; [reflexivity|]); (split; [lia|]);
+           exists k', (S j), (b2v false); do 2 eexists; (split; [reflexivity|]); (split; [first [left; reflexivity | right; reflexivity]|]); (split; [lia|]);
            rewrite (skipn_all2 p (n := S k')), rev_nil by lia; fin ]; fail).
     (* anything else: written as it is *)
     all: crunch.
-    all: exists k, j, (b2v false); eexists; (split; [reflexivity|]); (split; [lia|]).
+    all: exists k, j, (b2v false); do 2 eexists; (split; [reflexivity|]); (split; [first [left; reflexivity | right; reflexivity]|]); (split; [lia|]).
     all: try (match goal with Ej' : (_ <? _)%nat = false |- _ => idtac end;
               apply Nat.ltb_ge in Ej; rewrite Hs, (skipn_all2 vals (n := j)) by lia;
               rewrite (rev_keep _ _ _ Eb) by (left; reflexivity); fin; fail).
